@@ -1,0 +1,44 @@
+//go:build verif
+
+// Contracts for the pledge protocol's local obligations (read as text by /verif's govc; comment-only).
+
+package pledge
+
+//@ # the largest key among the candidates (lo.Max over lo.Keys): assumed
+//@ spec func SpecHighest(g node.Group) node.Key
+//@ trusted func highestNodeID(candidates node.Group) (k node.Key)
+//@   ensures k == SpecHighest(candidates)
+//@   ensures forall x node.Key :: __in(candidates, x) ==> x <= k
+//@   modifies nothing
+
+//@ spec func hasKey(s []node.Key, k node.Key) bool = exists i int :: 0 <= i && i < len(s) && s[i] == k
+
+//@ # a juror approves a key at most once: approvals are append-only, an approval records the key,
+//@ # and a key that was approved before is always rejected
+//@ func (j *juror) verdict(ctx context.Context, req Request) (err error)
+//@   pragma opaque_func_values Candidates
+//@   ensures  old(hasKey(j.approvals, req.Key)) ==> err != nil
+//@   ensures  err == nil ==> hasKey(j.approvals, req.Key) && !old(hasKey(j.approvals, req.Key))
+//@   ensures  len(j.approvals) >= old(len(j.approvals)) && (forall i int :: 0 <= i && i < old(len(j.approvals)) ==> j.approvals[i] == old(j.approvals[i]))
+//@   ensures  forall k node.Key :: hasKey(j.approvals, k) ==> old(hasKey(j.approvals, k)) || k == req.Key
+//@   modifies &j.approvals
+
+//@ # proposals never repeat: the first is highest+1, every retry is the previous + 1
+//@ func (r *responsible) idToPropose() (k node.Key)
+//@   requires r._proposedKey < 65535 && SpecHighest(r.candidateSnapshot) < 65535
+//@   ensures  k == r._proposedKey
+//@   ensures  old(r._proposedKey) == 0 ==> k == SpecHighest(r.candidateSnapshot) + 1
+//@   ensures  old(r._proposedKey) != 0 ==> k == old(r._proposedKey) + 1
+//@   ensures  k > old(r._proposedKey)
+//@   modifies &r._proposedKey
+
+//@ # the quorum is a strict majority of the active candidates, drawn from the healthy ones
+//@ func (r *responsible) buildQuorum() (q node.Group, err error)
+//@   ensures err == nil ==> (forall k node.Key :: __in(q, k) ==> __in(r.candidateSnapshot, k) && r.candidateSnapshot[k].State == node.StateHealthy)
+//@   ensures err != nil ==> err == errQuorumUnreachable
+//@   modifies nothing
+
+//@ # counting core of quorum intersection: two majorities of the same n members share a member
+//@ lemma majoritiesIntersect(n int, a int, b int, union int, inter int)
+//@   requires 0 <= n && 2*a > n && 2*b > n && union <= n && inter == a + b - union
+//@   ensures  inter > 0
